@@ -39,6 +39,9 @@ constexpr auto trunc_check(T const x) noexcept -> T
                           :
                           // signed-zero cases
             T(0) == x ? x
+                      :
+                      // already integral (and too large for the integer cast below)
+            abs(x) >= T(1) / etl::numeric_limits<T>::epsilon() ? x
                                                        :
                                                        // else
             trunc_int(x)
